@@ -3,6 +3,7 @@ package main
 import (
 	"fmt"
 	"math/rand"
+	"regexp"
 	"strings"
 
 	"github.com/ldclabs/cose/iana"
@@ -192,6 +193,12 @@ func genMsgNonce(r *rand.Rand, n int) []string {
 			prot = fmt.Sprintf("{ int:1 int:%d int:6 b:%s }", alg, hx(randBytes(r, 1+r.Intn(ns-1))))
 		case 7: // a caller IV of zero octets only: used verbatim like any other
 			unprot = "{ int:5 b:" + hx(make([]byte, ns)) + " }"
+		case 1: // a caller IV that begins with zero octets (a counter in the low-order octets)
+			iv0 := randBytes(r, ns)
+			for j := 0; j < ns/2; j++ {
+				iv0[j] = 0
+			}
+			unprot = "{ int:5 b:" + hx(iv0) + " }"
 		case 4: // the first message of a counter: an all-zero Partial IV under a key with a Base IV (nonce = Base IV)
 			unprot = "{ int:6 b:" + hx(make([]byte, 1+(i/9)%2)) + " }"
 			extra = []string{"int:5", "b:" + hx(randBytes(r, ns))}
@@ -295,8 +302,12 @@ func genMsgForeign(r *rand.Rand, n int) []string {
 		k := genMsgKey(r, alg, false)
 		// fixed slot (COSE_Sign): the key has a kid but the signature entry carries none and names another algorithm — there
 		// is no verifier "for" it, it is not to be tried against the others
+		twoKeysOneKid := kind == "sign" && round%6 == 3 && (round/6)%2 == 0
+		if twoKeysOneKid {
+			alg = iana.AlgorithmES256
+		}
 		kidlessSig := kind == "sign" && round%6 == 0 && (round/6)%2 == 1
-		for kidlessSig && len(k.kid) == 0 {
+		for (kidlessSig || twoKeysOneKid) && len(k.kid) == 0 {
 			k = genMsgKey(r, alg, false)
 		}
 		kk := keyFromToks(strings.Fields(k.priv))
@@ -375,6 +386,11 @@ func genMsgForeign(r *rand.Rand, n int) []string {
 			}
 			skeys := []msgKey{k}
 			bad := false
+			if twoKeysOneKid {
+				// the verifier list holds an ES256 key and, under the same kid, a key of another algorithm; the one signature
+				// names ES256 but was made by the other key: the verifier found for the kid (the first) decides, alone
+				nSig = 1
+			}
 			for j := 0; j < nSig; j++ {
 				sk := k
 				if j > 0 && r.Intn(2) == 0 && len(k.kid) > 0 && !twoUnderOneKid {
@@ -401,6 +417,22 @@ func genMsgForeign(r *rand.Rand, n int) []string {
 						oa = sigAlgs[r.Intn(len(sigAlgs))]
 					}
 					signProt = foreignBucket(r, oa, true)
+				}
+				if twoKeysOneKid {
+					signProt = foreignBucket(r, alg, true)
+					other := genMsgKey(r, []int{iana.AlgorithmEdDSA, iana.AlgorithmES384}[(round/12)%2], false)
+					re := regexp.MustCompile(`int:2 (b|bs|bx):[0-9a-f]+`)
+					kidTok := "int:2 b:" + hx(k.kid)
+					for _, f := range []*string{&other.priv, &other.pub} {
+						if re.MatchString(*f) {
+							*f = re.ReplaceAllString(*f, kidTok)
+						} else {
+							*f = strings.Replace(*f, "{ ", "{ "+kidTok+" ", 1)
+						}
+					}
+					other.kid = k.kid
+					skeys = append(skeys, other)
+					sk = other
 				}
 				tobe := encStructure("Signature", bodyProt, signProt, extOrEmpty, payload)
 				s, err := keyFromToks(strings.Fields(sk.priv)).Signer()
@@ -458,6 +490,9 @@ func genMsgForeign(r *rand.Rand, n int) []string {
 			if len(foreignKeys) == 1 { // (one entry per signer: only messages with one signature per key are re-signed like-for-like)
 				out = append(out, fmt.Sprintf("msg.resign %s %s | %s", hxOpt(ext), hx(msg), strings.Join(pk, " | ")))
 			}
+		}
+		if (kind == "sign1" || kind == "mac0") && round%2 == 0 { // the same kind of object, re-used with a primitive that fails
+			out = append(out, fmt.Sprintf("msg.failsign %s %s | %s | %s | %s", kind, hxOpt(ext), hxOpt(payload), hx(randBytes(r, 1+r.Intn(20))), k.priv))
 		}
 		// chain: decode -> encode -> decode -> verify, on the library
 		if re := reencode(kind, msg); strings.HasPrefix(re, "ok ") {
